@@ -254,6 +254,12 @@ def make_text(R):
     return "long", "\n".join(lines) + "\n" + R.choice(["x" * 10000, "> " * 300 + "deep", "- " * 200 + "deep", "*" * 3000, "[" * 2000, "`" * 4001, "<" * 3000, "\\" * 5000, ("|a" * 400 + "|\n") + ("|-" * 400 + "|\n"), "{{" * 1500, "$" * 3001])
 
 
+CFG_VALUE_SOUP = [".nan", ".inf", "-.inf", "0", "-1", "1", "7", "8", "1.5", "200.0", "1e999", "99999999999999999999999999", "true", "false", "~", "''", "x", "' '", "[]", "{}", "[~]", "{a: ~}", "[[a]]", "{a: {b: c}}", "[.nan]", "{a: .nan}",
+                  "2020-01-01", "!!binary aGk=", "[x, x]", "[1, 2]", "{1: 2}", "os.path.basename", "[note]", "[deflist, nosuch]", "'{'", "['', '']", "[ab, cd]", "[a, b]", "{http: ~}", "{x: {url: 1}}", "{x: {nosuch: y}}", "[myst.header]", "-0.0",
+                  "1_0", "0x10", "'7'", "[amsmath, dollarmath]", "{k: [a, b]}", "{k: [a, ~]}", "{k: [a]}", "{k: v}"]
+CFG_VALUE_TEXT = ("# Title\n\ntext *em* [l](u.md) <https://e.org> `c` $m$ {{ k }} {sub}`r` ~~s~~ \"q\" (c) word[^f]\n\n[^f]: note\n\n## Sub\n\n- [ ] task\n\n```python\ncode\n```\n\n```{note}\nn\n```\n\n:::{tip}\nt\n:::\n\n"
+                  "| a |\n|---|\n| b |\n\nterm\n: def\n\n:field: v\n\n$$\nx\n$$ (lbl)\n\n\\begin{equation}\ny\n\\end{equation}\n\n<div class=\"admonition\">x</div>\n\n<img src=\"i.png\">\n\n[](#sub) [](inv:k#x) <wiki:P>\n\n{a=b}\npara\n")
+
 ISOLATION = [
     ["```{note}", "before {mvboom}`x` after", "```"], ["> ```{note}", "> {mvboom}`x`", "> ```"], ["````{tip}", "```{note}", "{mvboom}`x`", "```", "````"], ["```{mvboomdir}", "body", "```"],
     ["````{mvboomafter}", "## heading inside", "", "```{note}", "x", "```", "````"], ["```{include} boominc.md", "```"], ["- item", "", "  ```{note}", "  {mvboom}`x`", "  ```"], [":::{note}", "{mvboom}`x`", ":::"],
@@ -520,6 +526,42 @@ def run_shard(ctx):
         ctx.case(("rule-disabled", nm), True)
         ctx.count("rules_disabled_one_by_one")
     ctx.subrun("each_rule_disabled", exhaustive=True, rules=len(rule_names) if ctx.shard == 0 else 0)
+    # every MdParserConfig field x a soup of YAML values, as a front-matter override and as the global setting: whatever the configuration layer
+    # accepts must render, whatever it rejects must be reported, and either way a document comes back
+    import dataclasses as _dc
+
+    import yaml as _yaml
+
+    fields = [f.name for f in _dc.fields(MdParserConfig)]
+    k = 0
+    for fn in fields:
+        for vi, ytxt in enumerate(CFG_VALUE_SOUP):
+            k += 1
+            if k % ctx.nshards != ctx.shard:
+                continue
+            try:
+                pyv = _yaml.safe_load(ytxt)
+            except Exception:  # noqa: BLE001
+                continue
+            front = "---\nmyst:\n  " + fn + ": " + ytxt + "\n---\n" + CFG_VALUE_TEXT
+            if fn == "gfm_only" and pyv:
+                continue  # needs linkify-it-py, which is not installed here (MyST raises ModuleNotFoundError by design)
+            if fn == "enable_extensions" and isinstance(pyv, (list, tuple, str)) and "linkify" in pyv:
+                continue
+            case = {"kind": "doc", "sub": "cfg-value-front", "text": front, "cfg": {"enable_extensions": [e for e in G.ALL_EXT if e != "linkify"]}, "alarm_s": 10}
+            eval_case(ctx, case)
+            ctx.case(("cfg-value-front", fn, ytxt), True)
+            try:
+                MdParserConfig(**{fn: pyv})
+            except Exception:  # noqa: BLE001
+                ctx.count("cfg_values_rejected_by_the_configuration_layer")
+                continue  # not a valid MdParserConfig value: outside the property's quantifier as a global setting (the front-matter route above still ran)
+            ctx.count("cfg_values_accepted_by_the_configuration_layer")
+            case = {"kind": "doc", "sub": "cfg-value-global", "text": CFG_VALUE_TEXT, "cfg": {fn: pyv}, "alarm_s": 10}
+            eval_case(ctx, case)
+            ctx.case(("cfg-value-global", fn, ytxt), True)
+            ctx.count("cfg_field_value_pairs")
+    ctx.subrun("config_field_value_matrix", exhaustive=True, fields=len(fields), values=len(CFG_VALUE_SOUP))
     for k in range(len(ISOLATION)):
         if k % ctx.nshards == ctx.shard % len(ISOLATION) or ctx.nshards <= k:
             case = {"kind": "doc", "sub": "isolation", "shape": k, "text": ""}
